@@ -27,7 +27,7 @@ ASSUMPTIONS = ["wall-clock seconds and RSS are measured, not proved; the Lean th
 RSS_LIMIT = 2 << 30
 
 
-def _worker(path, conn):
+def _worker(path, conn, wal=None):
     try:
         resource.setrlimit(resource.RLIMIT_AS, (RSS_LIMIT, RSS_LIMIT))
     except (ValueError, OSError):
@@ -36,7 +36,10 @@ def _worker(path, conn):
     rss0 = resource.getrusage(resource.RUSAGE_SELF).ru_maxrss      # inherited from the forking parent
     frames = D.frames_available()
     try:
-        s, db, e = D.dump_db(path)
+        if wal is None:
+            s, db, e = D.dump_db(path)
+        else:
+            s, vh, e = D.dump_history(path, wal)
     except MemoryError:
         s = "memory-error"
     except RecursionError:
@@ -47,10 +50,10 @@ def _worker(path, conn):
     conn.close()
 
 
-def run_impl(path, limit):
+def run_impl(path, limit, wal=None):
     ctx = mp.get_context("fork")
     parent, child = ctx.Pipe(duplex=False)
-    p = ctx.Process(target=_worker, args=(path, child))
+    p = ctx.Process(target=_worker, args=(path, child, wal))
     p.start()
     child.close()
     res = None
@@ -68,9 +71,11 @@ def run_impl(path, limit):
     return {"sha": res[0], "prefix": res[1], "frames": res[2], "time": res[3], "rss_kb": res[4]}
 
 
-def run_model(path, frames, limit):
+def run_model(path, frames, limit, wal=None):
+    op = (f"db.dump {path} mem=0 strict=1 size=- frames={frames}\n" if wal is None
+          else f"vh.dump {path} {wal} mem=0 strict=1 frames={frames}\n")
     try:
-        p = subprocess.run([SDMODEL], input=f"db.dump {path} mem=0 strict=1 size=- frames={frames}\n".encode(),
+        p = subprocess.run([SDMODEL], input=op.encode(),
                            stdout=subprocess.PIPE, stderr=subprocess.PIPE, cwd=LEAN, timeout=limit)
     except subprocess.TimeoutExpired:
         return None
@@ -107,20 +112,57 @@ def run(ctx, per_db_quick=130, per_db_thorough=2500):
                 p = sc.path(f"c{bi}_{ci}.db")
                 with open(p, "wb") as fh:
                     fh.write(data)
-                jobs.append((p, desc, limit, clean_sha, b.cfg))
+                jobs.append((p, desc, limit, clean_sha, b.cfg, None))
+        # damaged write-ahead logs: header fields, frame header fields, truncations, flips
+        for hi in range(4 if ctx.thorough() else 2):
+            cfg = F.random_cfg(r, page_sizes=[512, 1024], small=True)
+            cfg.update(rows=20, wide_table=0, fragmenter=None, index_boundary=False)
+            h = H.make_history(sc.path(f"wh{hi}"), cfg, r, kind=["plain", "ddl", "spill", "checkpoint_restart"][hi % 4], n_commits=3)
+            if not h.wal:
+                continue
+            t0 = time.time()
+            clean, vh, e = D.dump_history(h.db, h.wal)
+            limit = max(10.0, 200 * (time.time() - t0))
+            clean_sha = hashlib.sha1(clean.encode()).hexdigest()
+            walb = open(h.wal, "rb").read()
+            ps = int.from_bytes(walb[8:12], "big")
+            nfr = (len(walb) - 32) // (24 + ps)
+            muts = []
+            for off in range(0, 32, 4):
+                for v in (0, 1, 0xFFFFFFFF, 3007000, 0x377F0682, 512, 65536, r.randint(0, 2 ** 32 - 1)):
+                    muts.append(({"kind": "wal.header", "off": off, "value": v}, off, v))
+            for fi in r.sample(range(nfr), min(nfr, 8)) + [nfr - 1]:
+                base = 32 + fi * (24 + ps)
+                for fo, name in ((0, "frame.page"), (4, "frame.size"), (8, "frame.salt1"), (12, "frame.salt2")):
+                    for v in (0, 1, 2, 0xFFFFFFFF, 10 ** 6, r.randint(0, 2 ** 32 - 1)):
+                        muts.append(({"kind": "wal." + name, "frame": fi, "value": v}, base + fo, v))
+            r.shuffle(muts)
+            for ci, (desc, off, v) in enumerate(muts[: (per_db if ctx.thorough() else per_db // 2)]):
+                d = bytearray(walb)
+                d[off:off + 4] = int(v).to_bytes(4, "big")
+                p = sc.path(f"w{hi}_{ci}.db-wal")
+                with open(p, "wb") as fh:
+                    fh.write(d)
+                jobs.append((h.db, desc, limit, clean_sha, cfg, p))
+            for ci in range(10):
+                cut = r.randint(0, len(walb))
+                p = sc.path(f"w{hi}_t{ci}.db-wal")
+                with open(p, "wb") as fh:
+                    fh.write(walb[:cut])
+                jobs.append((h.db, {"kind": "wal.truncate", "at": cut}, limit, clean_sha, cfg, p))
 
         def one(job):
-            p, desc, limit, clean_sha, cfg = job
-            impl = run_impl(p, limit)
+            p, desc, limit, clean_sha, cfg, wal = job
+            impl = run_impl(p, limit, wal)
             model = None
             if "sha" in impl:
-                model = run_model(p, impl["frames"], max(90.0, 6 * limit) * (10 if ctx.thorough() else 1))
+                model = run_model(p, impl["frames"], max(90.0, 6 * limit) * (10 if ctx.thorough() else 1), wal)
             return job, impl, model
 
         with ThreadPoolExecutor(max_workers=14) as ex:
             results = list(ex.map(one, jobs))
         slowest = 0.0
-        for (p, desc, limit, clean_sha, cfg), impl, model in results:
+        for (p, desc, limit, clean_sha, cfg, wal), impl, model in results:
             case = {"corruption": desc, "cfg": {k: cfg[k] for k in ("page_size", "auto_vacuum", "rows", "churn")}, "seed": ctx.seed}
             ctx.evals += 1
             n0 = len(ctx.oracle_failures)
@@ -149,7 +191,7 @@ def run(ctx, per_db_quick=130, per_db_thorough=2500):
                         ctx.disagreements.append({"label": "db.dump(corrupt)", "op": str(desc)[:300],
                                                   "impl": impl["prefix"][:120], "model": model[:120]})
             if len(ctx.oracle_failures) > n0:
-                C.keep_failing_files(ctx, n0, p)
+                C.keep_failing_files(ctx, n0, p, wal)
             ctx.sample({"corruption": desc, "impl": impl.get("prefix", str(impl))[:80]}, cap=6)
         ctx.extra["slowest_parse_s"] = round(slowest, 2)
         ctx.extra["time_limit_rule"] = "max(10 s, 200 x clean parse time)"
